@@ -7,6 +7,7 @@
 //! perturbation of the analysis result (edge, live set, value fact) must
 //! change the dump; the CLI's --yaml output carries the same content.
 
+use riscv_analysis::parser::InstructionProperties as _;
 use crate::cli;
 use crate::driver::*;
 use crate::gen::*;
@@ -153,6 +154,10 @@ fn wrapper_for(item: &Item, node: &ParserNode) -> NodeWrapper {
 fn same_fields(a: &NodeWrapper, b: &NodeWrapper) -> Option<&'static str> {
     if a.node.to_string() != b.node.to_string() {
         return Some("node");
+    }
+    // function annotations carried by the node itself
+    if a.node.is_handler_function_entry() != b.node.is_handler_function_entry() {
+        return Some("interrupt-handler annotation");
     }
     if a.labels != b.labels {
         return Some("labels");
@@ -305,7 +310,10 @@ impl C19 {
     }
 
     fn program(&self, tier: Tier, case: u64, k: &Kernel, with_cli: bool, acc: &mut Acc) {
-        let text = k.program.text();
+        self.program_text(tier, case, k.family, k.program.text(), with_cli, acc);
+    }
+
+    fn program_text(&self, tier: Tier, case: u64, family: &str, text: String, with_cli: bool, acc: &mut Acc) {
         let Ok(run) = imp::analyze_text(&text) else {
             acc.count("analysis_panicked", 1);
             return;
@@ -446,16 +454,22 @@ impl C19 {
                 kinds.push(tag.trim());
             }
         }
-        acc.outcome(&format!("program-dump:{}:{}", k.family, kinds.join(",")), case);
+        acc.outcome(&format!("program-dump:{}:{}", family, kinds.join(",")), case);
     }
 }
+
+/// programs with annotations the kernel family cannot express
+const FIXED_PROGRAMS: [(&str, &str); 2] = [
+    ("interrupt-handler", "main:\n    la t0, handler\n    csrrw zero, 5, t0\n    li a7, 10\n    ecall\nhandler:\n    csrrw t0, 64, t0\n    sw t1, 0(t0)\n    lw t1, 0(t0)\n    csrrw t0, 64, t0\n    uret\n"),
+    ("handler-also-called", "main:\n    la t0, handler\n    csrrw zero, 5, t0\n    jal handler\n    li a7, 10\n    ecall\nhandler:\n    addi a0, a0, 1\n    ret\n"),
+];
 
 impl Property for C19 {
     fn id(&self) -> &'static str {
         "C19"
     }
     fn cases(&self, tier: Tier) -> u64 {
-        1 + self.items.len() as u64 + self.n_programs(tier)
+        1 + self.items.len() as u64 + self.n_programs(tier) + FIXED_PROGRAMS.len() as u64
     }
     fn chunk(&self, _tier: Tier) -> u64 {
         80
@@ -479,7 +493,13 @@ impl Property for C19 {
             self.roundtrip_item(case, item, acc);
             return;
         }
-        let p = (i - self.items.len() as u64) * self.stride(tier);
+        let pi = i - self.items.len() as u64;
+        if pi >= self.n_programs(tier) {
+            let (name, text) = FIXED_PROGRAMS[(pi - self.n_programs(tier)) as usize];
+            self.program_text(tier, case, name, text.to_string(), crate::profile() == "release", acc);
+            return;
+        }
+        let p = pi * self.stride(tier);
         let k = self.kspace(tier).get(p);
         self.program(tier, case, &k, crate::profile() == "release" && case % 40 == 0, acc);
     }
